@@ -39,7 +39,7 @@ ASSUMPTIONS = [
     "the scheduler does not model locks: cm_colors takes none; a stall is a HARNESS-ERROR, never a verdict",
     "text results embedding the sandbox path are normalised to <SBX>",
 ]
-PROBES = ["H_runs", "H_ops", "H_probes_after_change", "H_cli_ops", "H_bulk_ops", "H_show_save_ops", "H_slot_reuse", "H_repeat_same_op", "H_alias_family_ops", "H_bulk_position_probes",
+PROBES = ["H_runs", "H_ops", "H_probes_after_change", "H_cli_ops", "H_bulk_ops", "H_show_save_ops", "H_slot_reuse", "H_repeat_same_op", "H_alias_family_ops", "H_bulk_position_probes", "H_flood_ops",
           "T_runs", "T_threads", "T_ops", "T_steps", "T_switches", "T_hot_line_hits", "T_switch_in_optimisation", "T_mode_different",
           "T_mode_same", "T_mode_shared_object", "T_runs_with_switch_inside_call", "P_runs", "P_ops", "P_interpreters"]
 
@@ -148,6 +148,11 @@ def generate(rseed, tier, idx):
                     if g.random() < 0.15:
                         op["show"] = True
                 ops.append(op)
+        if g.random() < 0.2:
+            # a flood of cheap, distinct, already-readable pairs: fills or evicts any bounded cache between two probes
+            k = g.randrange(1 << 20)
+            flood = [[enc("#%06x" % ((k + 7919 * j) % (1 << 24) & 0x3f3f3f)), enc("#ffffff")] for j in range(g.choice((40, 150, 300)))]
+            ops.insert(g.randrange(len(ops) + 1), {"op": "bulk", "pairs": flood, "mode": 0, "vr": False, "flood": True})
         if g.random() < 0.4:  # members of one alias family at different points of the history, same settings
             fam = gen.alias_family(g)
             t0, b0, large0 = _pair(g)
@@ -221,7 +226,7 @@ def run_cli_op(op):
 
 
 def _run_any(op, ctx, root):
-    sop = {k: v for k, v in op.items() if k not in ("again", "alias")}
+    sop = {k: v for k, v in op.items() if k not in ("again", "alias", "flood")}
     if sop["op"] == "cli":
         return run_cli_op(sop)
     with apiops.Effects(root) as fx:
@@ -278,7 +283,7 @@ def _exec_H(trace):
     model = apiops.Ctx()
     expect = []
     for op in trace["ops"]:
-        sop = {k: v for k, v in op.items() if k not in ("again", "alias")}
+        sop = {k: v for k, v in op.items() if k not in ("again", "alias", "flood")}
         if sop["op"] == "newpair":
             model.slot_spec[sop["slot"]] = {"t": sop["t"], "b": sop["b"], "large": sop.get("large", False)}
         eq = sop if sop["op"] == "cli" else apiops.fresh_equivalent(sop, model)
@@ -287,7 +292,7 @@ def _exec_H(trace):
     # computed before the history starts
     cache_one = {}
     for op in trace["ops"]:
-        if op["op"] == "bulk" and len(op["pairs"]) > 1 and not op.get("save"):
+        if op["op"] == "bulk" and len(op["pairs"]) > 1 and not op.get("save") and not op.get("flood"):
             for entry in op["pairs"]:
                 apiops.oracle({"op": "bulk", "pairs": [entry], "mode": op.get("mode"), "vr": op.get("vr")}, cache_one)
     root = base.new_sandbox("c15h")
@@ -312,6 +317,8 @@ def _exec_H(trace):
                 bump("H_repeat_same_op")
             if op.get("alias"):
                 bump("H_alias_family_ops")
+            if op.get("flood"):
+                bump("H_flood_ops")
             if changed_seen:
                 bump("H_probes_after_change")
                 nontrivial = True
@@ -326,7 +333,7 @@ def _exec_H(trace):
                             "features": {"kind": "object-mutated", "op": op["op"]}})
             # "at any position in a bulk list": element k of a bulk result must be what a one-entry bulk call
             # for that entry returns in a pristine process
-            if op["op"] == "bulk" and "ret" in r and len(op["pairs"]) > 1 and not op.get("save"):
+            if op["op"] == "bulk" and "ret" in r and len(op["pairs"]) > 1 and not op.get("save") and not op.get("flood"):
                 got_list = dec(r["ret"])
                 for k, entry in enumerate(op["pairs"]):
                     one = apiops.oracle({"op": "bulk", "pairs": [entry], "mode": op.get("mode"), "vr": op.get("vr")}, cache_one)
@@ -342,7 +349,7 @@ def _exec_H(trace):
     finally:
         base.rm_tree(root)
     return {"violations": vio, "digest": base.digest(events), "nontrivial": nontrivial, "stats": stats, "steps": stats.get("H_ops", 0),
-            "measures": {"distinct_histories(op lists)": base.digest([{k: v for k, v in o.items() if k not in ("again", "alias")} for o in trace["ops"]])}}
+            "measures": {"distinct_histories(op lists)": base.digest([{k: v for k, v in o.items() if k not in ("again", "alias", "flood")} for o in trace["ops"]])}}
 
 
 def _brief(op):
